@@ -183,6 +183,14 @@ impl FdtReceiver {
         self.get_server_time(now) > expires
     }
 
+    /// Check if the reception of the FDT is stalled for a duration greater than timeout
+    pub fn is_timeout(&self, now: std::time::Instant, timeout: &std::time::Duration) -> bool {
+        match self.obj.as_ref() {
+            Some(obj) => obj.last_activity_duration_since(now).gt(timeout),
+            None => false,
+        }
+    }
+
     pub fn get_expiration_time(&self) -> Option<SystemTime> {
         let inner = self.inner.borrow();
         inner.expires
